@@ -10,10 +10,9 @@ The model `KVV.Redb` keeps records abstractly as `(version, value)` and compares
 the **encoded** byte strings (`existing.value() != &vv`), and `get` / `get_prefix` / the reopened store return
 `decode_vv` of what `encode_vv` wrote.  Both steps of the model are justified here:
 
-* `C16_gen_decode_encode`: what `encode_vv` produced decodes without panic to exactly the value written and to
-  `from_be_bytes (to_be_bytes version)` (the arithmetic identity `from_be_bytes ∘ to_be_bytes = id` on `u64` is not
-  proved here — the proof attempt timed out — it is covered by `C16_gen_encode_inj` for the comparison and by the
-  real-file harness for reads);
+* `C16_gen_decode_encode`: what `encode_vv` produced for a `u64` version decodes to exactly that version and value
+  (`fromBe8_beBytes8`: `from_be_bytes ∘ to_be_bytes = id` on `u64`), so reads, and the version cache rebuilt by
+  `new_store` on reopen, see what was written;
 * `C16_gen_encode_inj`: two encodings are equal only for equal version and value (so the same-version content
   comparison on encodings is the comparison on records);
 * `C16_gen_decode_vv` also states when `decode_vv` panics (a table entry shorter than 8 bytes — never written by
@@ -30,6 +29,16 @@ theorem beBytes8_eq (n : Nat) : Hm.beBytes8 n = Hmac.be64 n := by
 
 theorem beBytes8_length (n : Nat) : (Hm.beBytes8 n).length = 8 := by
   simp [Hm.beBytes8]
+
+theorem byte_toNat (a : Nat) : (UInt8.ofNat (a % 256)).toNat = a % 256 := by
+  simp [UInt8.toNat_ofNat']
+
+/-- `u64::from_be_bytes(v.to_be_bytes()) = v` -/
+theorem fromBe8_beBytes8 (n : Nat) (h : n ≤ U64MAX) : Hm.fromBe8 (Hm.beBytes8 n) = n := by
+  have h' : n < 18446744073709551616 := by unfold U64MAX at h; omega
+  rw [beBytes8_eq]
+  simp only [Hm.fromBe8, Hmac.be64, List.foldl_cons, List.foldl_nil, byte_toNat]
+  omega
 
 /-- `encode_vv` = `version.to_be_bytes() ‖ value`; the capacity computation `value.len() + 8` is the only partial
     step (overflow of `usize`, impossible for a real vector) -/
@@ -48,8 +57,8 @@ theorem C16_gen_decode_vv (b : Bytes) :
   · simp [Hm.slice, h, bind, Except.bind, Rs.panic]
 
 /-- a record written by `encode_vv` reads back as exactly the version and value written -/
-theorem C16_gen_decode_encode (v : Nat) (x : Bytes) :
-    Redb.RedbKVVStore.decode_vv (Hm.beBytes8 v ++ x) = .ok (Hm.fromBe8 (Hm.beBytes8 v), x) := by
+theorem C16_gen_decode_encode (v : Nat) (x : Bytes) (hv : v ≤ U64MAX) :
+    Redb.RedbKVVStore.decode_vv (Hm.beBytes8 v ++ x) = .ok (v, x) := by
   rw [C16_gen_decode_vv]
   have hl : 8 ≤ (Hm.beBytes8 v ++ x).length := by simp [beBytes8_length]
   have ht : List.take 8 (Hm.beBytes8 v ++ x) = Hm.beBytes8 v := by
@@ -58,7 +67,7 @@ theorem C16_gen_decode_encode (v : Nat) (x : Bytes) :
   have hd : List.drop 8 (Hm.beBytes8 v ++ x) = x := by
     have := List.drop_append (l₁ := Hm.beBytes8 v) (l₂ := x) (i := 0)
     simpa [beBytes8_length] using this
-  simp only [hl, if_true, ht, hd]
+  simp only [hl, if_true, ht, hd, fromBe8_beBytes8 v hv]
 
 /-- the comparison of encodings (`existing.value() != &vv`) is the comparison of `(version, value)` -/
 theorem C16_gen_encode_inj (v v' : Nat) (x x' : Bytes) (hv : v ≤ U64MAX) (hv' : v' ≤ U64MAX)
@@ -71,8 +80,8 @@ theorem C16_gen_encode_inj (v v' : Nat) (x x' : Bytes) (hv : v ≤ U64MAX) (hv' 
 /-- non-vacuity: version 258 with a two-byte value satisfies the hypotheses -/
 example : Redb.RedbKVVStore.encode_vv 258 [7, 9] = .ok (Hm.beBytes8 258 ++ [7, 9]) :=
   C16_gen_encode_vv 258 [7, 9] (by simp [Rs.USIZE_MAX])
-example : Redb.RedbKVVStore.decode_vv (Hm.beBytes8 258 ++ [7, 9]) = .ok (Hm.fromBe8 (Hm.beBytes8 258), [7, 9]) :=
-  C16_gen_decode_encode 258 [7, 9]
+example : Redb.RedbKVVStore.decode_vv (Hm.beBytes8 258 ++ [7, 9]) = .ok (258, [7, 9]) :=
+  C16_gen_decode_encode 258 [7, 9] (by unfold U64MAX; omega)
 example : Redb.RedbKVVStore.decode_vv [0, 0, 0] = .error .panic := by
   rw [C16_gen_decode_vv]; simp
 
